@@ -787,3 +787,31 @@ func AbortCase[C any](s *Sub[C], c C, err error) {
 	fmt.Printf("--- FAIL: VERIF-ABORT sub=%s: %s\n", s.Name, firstLine(err.Error()))
 	os.Exit(1)
 }
+
+// RunFuzz drives a sub-check with Go's native coverage-guided fuzzer through rapid.MakeFuzz:
+// the fuzzer mutates the byte stream rapid draws from, so the same generator and oracle are
+// explored under coverage guidance. Failing cases are written as replay files like anywhere else.
+func RunFuzz[C any](f *testing.F, s *Sub[C]) {
+	f.Fuzz(rapid.MakeFuzz(func(rt *rapid.T) {
+		c := s.Gen(rt)
+		if err := SafeCheck(s, c); err != nil {
+			if isHarness(err) {
+				fmt.Printf("VERIF-HARNESS-ERROR sub=%s %v\n", s.Name, err)
+				rt.Fatalf("%v", err)
+			}
+			writeCase(replayPath(s.Name), s.Name, c, err.Error())
+			rt.Fatalf("property violated: %v", err)
+		}
+	}))
+}
+
+// FailFuzz is the failure path of byte-level fuzz targets: the case is written as the replay
+// file of the named sub-check and the test fails.
+func FailFuzz[C any](t *testing.T, s *Sub[C], c C, err error) {
+	if isHarness(err) {
+		fmt.Printf("VERIF-HARNESS-ERROR sub=%s %v\n", s.Name, err)
+		t.Fatalf("%v", err)
+	}
+	writeCase(replayPath(s.Name), s.Name, c, err.Error())
+	t.Fatalf("property violated: %v", err)
+}
